@@ -30,7 +30,7 @@ CAPS = {"quick": dict(time=int(os.environ.get("ZV_CAP_S", 600)), mem_gb=float(os
         "thorough": dict(time=int(os.environ.get("ZV_CAP_S", 3600)), mem_gb=float(os.environ.get("ZV_MEM_GB", 24)))}
 
 MEMSAFE_CLASSES = ("pointer_dereference", "pointer_arithmetic", "pointer", "memory-leak",
-                   "deallocated", "misaligned")
+                   "deallocated", "misaligned", "safety_check")
 
 
 def log(*a):
@@ -634,7 +634,10 @@ def main():
         json.dump(vals, open(vpath, "w"))
         outs = native_replay(h, vpath, features)
         replays += 1
-        memsafe = all(f["cls"] in MEMSAFE_CLASSES or "dereference" in f["desc"] or "deallocated" in f["desc"] for f in r["failed"])
+        # memory-safety failures (out-of-bounds pointer arithmetic, dangling/deallocated accesses) rarely trap in a
+        # plain native run: if ANY failed check is of that kind and nothing reproduced, ask Miri
+        memsafe = any(f["cls"] in MEMSAFE_CLASSES or "dereference" in f["desc"] or "deallocated" in f["desc"]
+                      or "same allocation" in f["desc"] for f in r["failed"])
         if memsafe and not any(v["verdict"] == "reproduced" for v in outs.values()):
             # use-after-free / out-of-bounds reads rarely trap in a plain run: ask Miri
             outs.update(native_replay(h, vpath, features, miri=True))
